@@ -83,6 +83,28 @@ def twin_check(facts, R, a, b, what, three_way=False):
     return len(ra)
 
 
+def _next_fields(facts, x):
+    """Fields of a `Next` value: the literal, or a call of one of Next's own constructors folded into the caller (the
+    constructor's result literal with the call's arguments substituted for its parameters)."""
+    if x[0] == "agg" and x[1].endswith("Next"):
+        return {k: render_n(e) for k, e in x[3]}
+    if x[0] == "call":
+        cands = [p for p in facts.bodies if p.startswith("server::Next::<'a>::") and p.count("::") == 3 and x[1].endswith("::" + p.rsplit("::", 1)[-1])]
+        for p in cands:
+            cv = Sym(facts.body(p)).local(0)
+            if cv[0] == "agg" and cv[1].endswith("Next"):
+                out = {}
+                for k, e in cv[3]:
+                    r = render_n(e)
+                    for ai in range(len(x[2])):
+                        r = r.replace("arg%d" % (ai + 1), "\0%d\1" % ai)
+                    for ai, a in enumerate(x[2]):
+                        r = r.replace("\0%d\1" % ai, render_n(a))
+                    out[k] = r
+                return out
+    return {}
+
+
 def run(facts, R):
     # ---------------- handler-twins -------------------------------------------------------------------
     impls = facts.impls_of("server::HandlerErased")
@@ -160,34 +182,13 @@ def run(facts, R):
             rows = value_rows(b, bs, facts, 0)
             v = bs.local(0)
             ok = len(rows) == 1 and is_call(v, "run") and len(v[2]) == 2 and render_n(v[2][1]) == "arg2"
-            nxt = {}
+            nxt = _next_fields(facts, v[2][0]) if ok else {}
             if ok:
-                x = v[2][0]
-                if x[0] == "agg" and x[1].endswith("Next"):
-                    nxt = {k: render_n(e) for k, e in x[3]}          # the literal, constructors folded into their callers
-                elif x[0] == "call" and x[1].endswith("::" + ctor) and ("server::Next::<'a>::" + ctor) in facts.bodies:
-                    cb = facts.body("server::Next::<'a>::" + ctor)
-                    cv = Sym(cb).local(0)
-                    if cv[0] == "agg":
-                        for k, e in cv[3]:
-                            r = render_n(e)
-                            for ai, a in enumerate(x[2]):
-                                r = r.replace("arg%d" % (ai + 1), "\0%d" % ai)
-                            for ai, a in enumerate(x[2]):
-                                r = r.replace("\0%d" % ai, render_n(a))
-                            nxt[k] = r
                 want_ctx = "Option::None{}" if extra is None else "Option::Some{0: %s}" % extra
                 ok = nxt.get("middlewares") == "arg1.middlewares" and nxt.get("handler") == "arg1.handler" and nxt.get("ctx") == want_ctx
             R.check(ok, "pipeline-forwards", b.path, "Next over the whole list and the inner handler", "pipeline %s is %s (Next = %s)" % (m, rows, nxt), b.span, rows[0][1][:160] if rows else None)
-        # ctors store their arguments
-    for ctor in ("new", "with_ctx"):
-        if ("server::Next::<'a>::" + ctor) not in facts.bodies:
-            continue        # folded into the pipeline (checked above on the literal)
-        b = facts.body("server::Next::<'a>::" + ctor)
-        v = Sym(b).local(0)
-        d = dict(v[3]) if v[0] == "agg" else {}
-        ok = d and render_n(d["middlewares"]) == "arg1" and render_n(d["handler"]) == "arg2"
-        R.check(ok, "pipeline-forwards", b.path, "Next{middlewares, handler}", "Next::%s builds %s" % (ctor, render(v)), b.span)
+        # (constructors are folded into their callers by _next_fields, whatever they are called and however their
+        # parameters are ordered)
     nr = facts.body("server::Next::<'a>::run")
     ns = Sym(nr)
     calls = [(i, t) for i, t in nr.calls() if t["callee"]["decl"] in ("server::Middleware::handle", "server::HandlerErased::handle", "server::HandlerErased::handle_with_ctx")]
@@ -198,8 +199,7 @@ def run(facts, R):
         fs = ["%s is %s" % (render_n(f["expr"]), f["val"]) for f in facts_at(nr, ns, facts, i)]
         nm = t["callee"]["name"]
         if t["callee"]["decl"] == "server::Middleware::handle":
-            nx = ns.op(t["args"][2])
-            d = {k: render_n(v) for k, v in nx[3]} if nx[0] == "agg" else {}
+            d = _next_fields(facts, ns.op(t["args"][2]))
             ok = a[0].endswith("split_first(arg1.middlewares) as Some).0.0") and a[1] == "arg2" and \
                 d.get("middlewares", "").endswith("split_first(arg1.middlewares) as Some).0.1") and d.get("middlewares", "").startswith("(") and \
                 d.get("handler") == "arg1.handler" and d.get("ctx") == "arg1.ctx"
